@@ -40,6 +40,7 @@ func runC17(c *Ctx) {
 	hiddenState(c, hidden, entries, infos, o)
 	publishedDefaults(c, o)
 	lockPairing(c)
+	noLockReentry(c, nil)
 	singleSection(c)
 	driverStateRule(c, "driver-keeps-no-state", driverMethods, o)
 	poolDisciplineRule(c)
@@ -451,6 +452,7 @@ func runC18(c *Ctx) {
 	}
 	c.floor("option-writes-instance-only", 8, "five writer options and five reader options")
 	optionWritesOwnStorage(c)
+	optionCapturesArgumentsOnly(c)
 	for _, name := range []string{"reader.New", "writer.New"} {
 		fn := c.P.Func(name)
 		if fn == nil {
